@@ -289,7 +289,7 @@ func enumCons(yield func(ConsCase) bool) {
 
 func TestC14Constructive(t *testing.T) {
 	vh.Run(t, vh.Spec[ConsCase]{
-		Name: "constructive", Gen: genCons, Run: runCons, Quick: 40000, Thorough: 400000, Enum: enumCons, EnumOnlyShard0: true,
+		Name: "constructive", Gen: genCons, Run: runCons, Quick: 200000, Thorough: 400000, Enum: enumCons, EnumOnlyShard0: true,
 		Rule: "text = F0 A1 F1 .. An Fn with 0-4 generated addresses (local [A-Za-z0-9._-]*[A-Za-z0-9], domain starting with a letter, dotted or truncated by the end of text) and fillers built from closed atoms (separators incl. multi-byte/invalid bytes/escapes, words, lone @, x@, @x, dot-less x@y, numeric domains, /-preceded addresses); adjacency allowed; expected output = fillers + REDACTED per address, byte for byte, counter +1 iff n>0; enumerated: every non-address byte as left/right neighbour; non-trivial = >=1 address with a non-empty neighbour or adjacency",
 	})
 }
@@ -572,7 +572,7 @@ func enumText(yield func(TextCase) bool) {
 
 func TestC14Text(t *testing.T) {
 	vh.Run(t, vh.Spec[TextCase]{
-		Name: "text", Gen: genText, Run: runText, Quick: 40000, Thorough: 400000, Enum: enumText, EnumOnlyShard0: true,
+		Name: "text", Gen: genText, Run: runText, Quick: 200000, Thorough: 400000, Enum: enumText, EnumOnlyShard0: true,
 		Rule: "arbitrary texts (exhaustively all strings of length <=5 [quick] / <=7 [thorough] over {a,1,.,@,/,space,-}; rapid: dense soups over the critical alphabet, edited/cut constructive texts, raw bytes); oracle = a dynamic-programming alignment must exist mapping input to output by replacing disjoint spans with REDACTED where each span is a maximal address-character run around exactly one '@' with word characters on both sides, every unambiguous address (independent matcher, maximal-run semantics) is covered, no purely numeric / slash-preceded / unshaped '@' is covered, everything else is preserved byte for byte; counter +1 iff changed; non-trivial = text with an address or >=2 '@'",
 	})
 }
